@@ -418,7 +418,12 @@ def run(ctx):
         seen = []
 
         def mk_s(name):
-            return lambda it, A, **kw: seen.append((name, kw)) or ("Q", "T")
+            def s_(it, A, *a, **kw):
+                names = prog.func("decomp.schur", name).params()[1:]
+                kw = dict(kw, **dict(zip(names, a)))          # options forwarded positionally or by keyword
+                seen.append((name, kw))
+                return ("Q", "T")
+            return s_
         it, d = new_interp(ctx, summaries={"decomp.schur:quaternion_schur_pure": mk_s("quaternion_schur_pure"),
                                            "decomp.schur:quaternion_schur_pure_implicit": mk_s("quaternion_schur_pure_implicit")})
         st, out = run_guarded(lambda: it.run(f_uni, [sym_quat("a", (2, 2))], dict(variant=variant, max_iter=7, tol=TOL)))
